@@ -22,8 +22,10 @@ package objects
 
 import (
 	"sort"
+	"time"
 
 	"github.com/apache/yunikorn-core/pkg/common/resources"
+	"github.com/apache/yunikorn-core/pkg/scheduler/policies"
 )
 
 // Verification hooks (build tag verif): exported access to unexported queue bookkeeping.
@@ -96,4 +98,50 @@ func (sa *Application) VerifFireStateTimer() bool {
 	}
 	sa.timeoutStateTimer(state, ev)()
 	return true
+}
+
+// VerifSetSortKeys sets the fields the queue sort policies read.
+func (sq *Queue) VerifSetSortKeys(priority int32, pending, allocated *resources.Resource) {
+	sq.Lock()
+	defer sq.Unlock()
+	sq.currentPriority = priority
+	sq.pending = pending
+	sq.allocatedResource = allocated
+}
+
+// VerifSortQueues runs sortQueue on the given candidates (sorted in place).
+func VerifSortQueues(queues []*Queue, fairMax []*resources.Resource, sortType policies.SortPolicy, considerPriority bool) {
+	sortQueue(queues, fairMax, sortType, considerPriority)
+}
+
+// VerifSetSortKeys sets the fields the application sort policies read.
+func (sa *Application) VerifSetSortKeys(submission time.Time, askMaxPriority int32, pending, allocated *resources.Resource) {
+	sa.Lock()
+	defer sa.Unlock()
+	sa.submissionTime = submission
+	sa.askMaxPriority = askMaxPriority
+	sa.pending = pending
+	sa.allocatedResource = allocated
+}
+
+// VerifSortApplications runs sortApplications on the given candidates.
+func VerifSortApplications(apps map[string]*Application, sortType policies.SortPolicy, considerPriority bool, global *resources.Resource) []*Application {
+	return sortApplications(apps, sortType, considerPriority, global)
+}
+
+// VerifSortedAsks gives access to the sorted request list of an application.
+type VerifSortedAsks struct {
+	s sortedRequests
+}
+
+func (v *VerifSortedAsks) Insert(a *Allocation) { v.s.insert(a) }
+
+func (v *VerifSortedAsks) Remove(a *Allocation) { v.s.remove(a) }
+
+func (v *VerifSortedAsks) Keys() []string {
+	out := make([]string, 0, len(v.s))
+	for _, a := range v.s {
+		out = append(out, a.GetAllocationKey())
+	}
+	return out
 }
